@@ -194,6 +194,44 @@ def search(ctx, deep):
                                    [float(prev[1][i]), float(cur[i])], 'C_theta pointwise non-decreasing in theta',
                                    f'{fam}.cdf:theta-order')
             prev = (th, cur)
+    # refusal: an unfitted model (theta None) or an inadmissible theta is refused by every entry point exactly as
+    # check_fit() refuses it — same exception type — whatever the batch looks like (interior rows, a column that is
+    # all zero, a single boundary row, an empty batch)
+    from copulas.bivariate import Bivariate
+    batches = {'interior': np.array([[0.3, 0.6], [0.7, 0.2]]), 'zero-column': np.array([[0.0, 0.4], [0.0, 0.9]]),
+               'zero-v-column': np.array([[0.4, 0.0], [0.2, 0.0]]), 'single-boundary-row': np.array([[0.0, 0.5]]),
+               'ones': np.array([[1.0, 1.0]]), 'empty': np.zeros((0, 2))}
+    for fam in B.FAMS:
+        makers = {'constructor': lambda: B.cls_of(fam)(), 'factory': lambda: Bivariate(copula_type=fam),
+                  'from_dict-unfitted': lambda: Bivariate.from_dict(B.cls_of(fam)().to_dict())}
+        states = [(name, None) for name in makers] + [('constructor', th) for th in B.theta_invalid(fam) + [float('-inf')]]
+        for route, th in states:
+            obj = makers[route]()
+            if th is not None:
+                obj.theta = th
+            try:
+                obj.check_fit()
+                continue            # admissible after all: nothing to refuse
+            except Exception as e:  # noqa
+                want = vc.exc_kind(e)
+            for bname, Xb in batches.items():
+                for m in ('cumulative_distribution', 'cdf'):
+                    checked += 1
+                    try:
+                        with np.errstate(all='ignore'):
+                            out = getattr(obj, m)(Xb.copy())
+                        got = 'returned ' + repr(np.asarray(out).tolist())[:80]
+                    except Exception as e:  # noqa
+                        got = vc.exc_kind(e)
+                    if got != want:
+                        found += 1
+                        ctx.fail_input(f'{fam}.{m}', {'theta': None if th is None else (th if th == th else 'nan'), 'route': route, 'batch': bname,
+                                                         'rows': Xb.tolist()}, got,
+                                       f'refused like check_fit() ({want}) for every batch', f'{fam}.{m}:refusal-differs-from-check_fit')
+                        break
+                else:
+                    continue
+                break
     # parameter forms: an integer-typed theta (Python int, np.int64, np.int32, 0-d array) is the same parameter as the
     # equal float
     for fam in B.FAMS:
